@@ -17,7 +17,7 @@ pub const FUNCS: &[&str] = &[
 
 pub const PUNCT: &[&str] = &["(", ")", ",", ":", ";", "=", "<", ">", "<=", ">=", "<>", "=<", "=>", "><", "+", "-", "*", "/", "\\", "^", "&", "&H", "$", "%", "!", "#", ".", "\"", "_", "@", "~", "[", "]"];
 
-pub const IDENTS: &[&str] = &["A", "B", "I", "J", "X", "A$", "B$", "A%", "I%", "A!", "A#", "AB", "A1", "A1$", "X9#", "Z", "T$", "N", "FNX", "TOTAL", "GO", "SUB", "E", "D", "E1", "D2"];
+pub const IDENTS: &[&str] = &["A", "B", "I", "J", "X", "A$", "B$", "A%", "I%", "A!", "A#", "AB", "A1", "A1$", "X9#", "Z", "T$", "N", "FNX", "TOTAL", "GO", "SUB", "E", "D", "E1", "D2", "OT", "OTHER", "EXT%", "EW", "HEN", "LSE", "O", "F", "R", "ND"];
 
 pub const NUMBERS: &[&str] = &[
     "0", "1", "2", "10", "20", "100", "255", "256", "32767", "32768", "65529", "65530", "65535", "65536", "99999", "1.5", ".5", "5.", ".", "1E5", "1D5",
